@@ -54,7 +54,8 @@ def gen_case(rng, pi_method=None, size="small", **kw):
         features = rng.choice([[], [], ["x1"], ["x1", "x2"]])
     tf_lo, tf_hi = 0.5, 2.0
     if rng.random() < 0.3:
-        tf_lo, tf_hi = rng.choice([0.25, 0.5, 0.75]), rng.choice([1.5, 2.0, 3.0])
+        # 0 is a valid lower limit ("keep every unit that has votes"), as an int or a float
+        tf_lo, tf_hi = rng.choice([0, 0.0, 0.25, 0.5, 0.75]), rng.choice([1.5, 2.0, 3.0])
         params = dict(params, turnout_factor_lower=tf_lo, turnout_factor_upper=tf_hi)
     history = None
     if rng.random() < 0.2:
